@@ -67,6 +67,9 @@ pub struct Cfg {
     pub tmt: u8,
     /// `override_precursor_charge`: ignore the annotated charge and search z_lo..=z_hi
     pub override_charge: bool,
+    /// `database.prefilter` with `prefilter_chunk_size` (0 = let sage choose)
+    pub prefilter: bool,
+    pub prefilter_chunk: usize,
 }
 
 #[derive(Clone, Debug)]
@@ -172,6 +175,8 @@ pub fn encode(r: &Request) -> String {
     for p in &r.planted {
         o.n(p.file).s(&p.title).s(&p.peptide);
     }
+    // optional trailing tokens (absent in older request lines = false / 0)
+    o.b(c.prefilter).n(c.prefilter_chunk);
     o.finish()
 }
 
@@ -226,11 +231,15 @@ pub fn decode(t: &mut Toks) -> Option<Request> {
         })
     })?;
     let planted = t.list(|t| Some(Planted { file: t.usize()?, title: t.string()?, peptide: t.string()? }))?;
+    let (prefilter, prefilter_chunk) = match t.bool() {
+        Some(p) => (p, t.usize()?),
+        None => (false, 0),
+    };
     Some(Request {
         cfg: Cfg {
             cleave, restrict, cterm, semi, mc, min_len, max_len, min_mass, max_mass, statics, vars, max_var,
             decoy_tag, gen_decoys, ptol, ftol, iso, z, report_psms, chimera, min_peaks, max_peaks, min_matched,
-            max_frag_charge, deisotope, annotate, pin, predict_rt, batch, bucket, min_ion_index, tmt, override_charge,
+            max_frag_charge, deisotope, annotate, pin, predict_rt, batch, bucket, min_ion_index, tmt, override_charge, prefilter, prefilter_chunk,
         },
         fasta,
         files,
@@ -269,6 +278,8 @@ pub fn database_json(c: &Cfg, fasta_path: &str) -> serde_json::Value {
         "max_variable_mods": c.max_var,
         "decoy_tag": c.decoy_tag,
         "generate_decoys": c.gen_decoys,
+        "prefilter": c.prefilter,
+        "prefilter_chunk_size": c.prefilter_chunk,
         "fasta": fasta_path,
     })
 }
@@ -624,11 +635,19 @@ fn random_cfg(rng: &mut Rng) -> Cfg {
         min_ion_index: *rng.pick(&[1usize, 2]),
         tmt: if rng.chance(1, 3) { *rng.pick(&[6u8, 10, 11, 16, 18]) } else { 0 },
         override_charge: rng.chance(1, 4),
+        prefilter: false,
+        prefilter_chunk: 0,
     }
 }
 
 pub fn random_request(rng: &mut Rng, nspec: usize) -> Option<Request> {
+    random_request_with(rng, nspec, &|_| {})
+}
+
+/// `tweak` adjusts the configuration BEFORE the database is built and the spectra are synthesised
+pub fn random_request_with(rng: &mut Rng, nspec: usize, tweak: &dyn Fn(&mut Cfg)) -> Option<Request> {
     let mut cfg = random_cfg(rng);
+    tweak(&mut cfg);
     let nprot = 2 + rng.below(5);
     let mut fasta: Vec<(String, String)> = Vec::new();
     for i in 0..nprot {
@@ -768,7 +787,28 @@ pub fn random_request(rng: &mut Rng, nspec: usize) -> Option<Request> {
 
 /// directed shapes that every run must contain (index = which one)
 fn directed(rng: &mut Rng, which: usize) -> Option<Request> {
-    let mut r = random_request(rng, 9)?;
+    let mut r = match which {
+        // chunked pre-filter build + isotope-shifted precursors: a planted peptide seen only with a 13C
+        // offset must survive the pre-filter pass and be reported
+        2 => random_request_with(rng, 9, &|c| {
+            c.prefilter = true;
+            c.prefilter_chunk = 2;
+            c.iso = (-1, 2);
+            c.chimera = false;
+            c.tmt = 0;
+            c.gen_decoys = true;
+        })?,
+        // chimeric search that really returns several PSMs per spectrum
+        3 => random_request_with(rng, 9, &|c| {
+            c.chimera = true;
+            c.report_psms = 2;
+            c.min_matched = 3;
+            c.tmt = 0;
+            c.deisotope = false;
+            c.ptol = (1, -30.0, 30.0);
+        })?,
+        _ => random_request(rng, 9)?,
+    };
     match which {
         // more files than the batch size, file count not a multiple of it (last batch is short)
         0 => {
@@ -807,6 +847,27 @@ fn directed(rng: &mut Rng, which: usize) -> Option<Request> {
             // the uniqueness hypothesis was evaluated for the old annotation: drop the planted claims
             r.planted.clear();
         }
+        2 => {
+            if r.fasta.len() <= r.cfg.prefilter_chunk {
+                return None;
+            }
+        }
+        3 => {
+            // every spectrum additionally carries the ladder of its neighbour (weaker): a co-fragmented pair
+            for f in r.files.iter_mut() {
+                let ladders: Vec<Vec<(f32, f32)>> = f.iter().map(|s| s.peaks.clone()).collect();
+                let n = f.len();
+                if n < 2 {
+                    continue;
+                }
+                for (k, s) in f.iter_mut().enumerate() {
+                    let other = &ladders[(k + 1) % n];
+                    s.peaks.extend(other.iter().map(|&(mz, i)| (mz + 0.0005, i / 3.0)));
+                    s.peaks.sort_by(|a, b| a.0.total_cmp(&b.0));
+                }
+            }
+            // rank-1 claims only hold for the stronger peptide; keep them (its peaks are 3x as intense)
+        }
         _ => {}
     }
     Some(r)
@@ -817,10 +878,10 @@ pub fn gen(rng: &mut Rng, tier: Tier, emit: &mut dyn FnMut(Case)) {
     let mut made = 0;
     let mut tries = 0;
     let mut next_directed = 0usize;
-    while made < n + 2 && tries < (n + 2) * 5 {
+    while made < n + 4 && tries < (n + 4) * 6 {
         tries += 1;
         let nspec = 4 + rng.below(if tier == Tier::Quick { 8 } else { 30 });
-        let req = if next_directed < 2 {
+        let req = if next_directed < 4 {
             let r = directed(rng, next_directed);
             if r.is_some() {
                 next_directed += 1;
@@ -832,7 +893,8 @@ pub fn gen(rng: &mut Rng, tier: Tier, emit: &mut dyn FnMut(Case)) {
         if let Some(r) = req {
             let c = &r.cfg;
             let case = Case::new(encode(&r))
-                .tag_if(!r.model_too_large, "model-compared")
+                .tag_if(!r.model_too_large && !c.prefilter, "model-compared")
+                .tag_if(c.prefilter, "model-na:prefilter")
                 .tag_if(r.model_too_large, "model-na:too-large")
                 .tag_if(c.semi, "semi-enzymatic")
                 .tag_if(!c.cterm, "n-terminal-enzyme")
@@ -848,6 +910,7 @@ pub fn gen(rng: &mut Rng, tier: Tier, emit: &mut dyn FnMut(Case)) {
                 .tag_if(r.files.len() > 1, "multi-file")
                 .tag_if(c.tmt != 0, "tmt")
                 .tag_if(c.override_charge, "override-precursor-charge")
+                .tag_if(c.prefilter, "prefilter")
                 .tag_if(r.files.len() > c.batch && r.files.len() % c.batch != 0, "short-last-batch");
             emit(case);
             made += 1;
